@@ -3,6 +3,7 @@ package main
 import (
 	"bufio"
 	"fmt"
+	"math"
 	"os"
 	"path/filepath"
 
@@ -52,6 +53,9 @@ func runFile(path string) {
 
 func runPrompt() {
 	scanner := bufio.NewScanner(os.Stdin)
+	// no limit on the length of an input line (the default is 64 KiB, after
+	// which Scan gives up and the session would end without a response)
+	scanner.Buffer(nil, math.MaxInt)
 	for {
 		fmt.Printf(">> ")
 		scanned := scanner.Scan()
